@@ -17,7 +17,11 @@ RULE = ("exhaustive: every (haystack, needle) over a 3-letter alphabet incl. NUL
         "types.  A case is non-trivial when the haystack is non-empty and the expected result is not the trivial "
         "answer (npos / 0 / empty) or the needle is empty; distinct = distinct case text.")
 ASSUMPTIONS = ["std::basic_string_view of libstdc++ 12 is the reference for spec validation (R2)",
-               "views are modelled as lists of unsigned code units; the character type is a parameter of the harness only"]
+               "views are modelled as lists of unsigned code units; the character type is a parameter of the harness only",
+               "wchar_t is a signed 32-bit type on this platform and both tetl and libstdc++ order it as signed: the generator only "
+               "produces non-negative wchar_t units, for which the unsigned order of the spec coincides",
+               "substr_eq, remove_prefix_eq, remove_suffix_eq state little beyond 'no error under the precondition' (the members are "
+               "one-liners whose model is their specification)"]
 TRUSTED = ["hand model Tetl/C08/Model.lean tied to the source by the correspondence run (R1) on every run",
            "spec Tetl/C08/Spec.lean validated against libstdc++ (R2) on every run"]
 SEARCH_CAP = 600000
@@ -77,6 +81,9 @@ def generate(tier, seed):
             for c1 in list(range(len(a) + 2)) + ["npos"]:
                 for b in tiny:
                     add("compare a=%s pos1=%s count1=%s b=%s" % (fmt_list(a), p1, c1, fmt_list(b)), "compare3")
+                    if 0 not in b:
+                        add("compare a=%s pos1=%s count1=%s b=%s ov=cstr" % (fmt_list(a), p1, c1, fmt_list(b)), "compare3/cstr")
+                    add("compare a=%s pos1=%s count1=%s b=%s ov=ptrn" % (fmt_list(a), p1, c1, fmt_list(b)), "compare3/ptrn")
                     if len(a) <= 2:
                         for p2 in range(len(b) + 1):
                             for c2 in [0, 1, "npos"]:
